@@ -454,7 +454,7 @@ def kinds_signature(case, lines):
 
 def run(chk, replay=None):
     tier, rng = chk.tier, chk.rng
-    pr = chk.prove()
+    pr = chk.prove(extra_targets=("Base_Bytes.vo", "C12_Model.vo"))
     model = vlib.build_model("C12")
     impl = vlib.build_driver("C12_driver", ["C12_driver.cc"], variant="asan", wrap=WRAP)
 
